@@ -58,7 +58,7 @@ ALLOWED_INSERT = re.compile(
     r'#\[verifier::|#\[trigger\]|broadcast use|reveal\(|//|\{\s*proof\s*\{)')
 # closure / signature decorations are short single-line inserts, checked apart
 ALLOWED_INLINE = re.compile(
-    r'^(\w*\s*:\s*[A-Za-z0-9_&<>\[\]\'() ]+|\s*->\s*\([a-z_]+:\s*[^)]+\)\s*(requires|ensures)[^{}]*\{\s*|\s*\}\s*|\((\w+): |\))$', re.S)
+    r'^(\w*\s*:\s*[A-Za-z0-9_&<>\[\]\'():, ]+|\s*->\s*\([a-z_]+:\s*[^)]+\)\s*(requires|ensures)[^{}]*\{?\s*|\s*\}\s*|\((\w+): |\))$', re.S)
 
 
 class Seg:
